@@ -259,6 +259,31 @@ def solution_snapshot(sol):
     }
 
 
+def raised_in_library(e):
+    """where the library's own code raised (None when the innermost frame is not under <repo>/iOpt)"""
+    tb, last = e.__traceback__, None
+    while tb is not None:
+        last = tb
+        tb = tb.tb_next
+    if last is None:
+        return None
+    fn = last.tb_frame.f_code.co_filename.replace("\\", "/")
+    root = os.path.join(os.path.abspath(REPO), "iOpt").replace("\\", "/") + "/"
+    return "%s:%d" % (fn[len(root):], last.tb_lineno) if fn.startswith(root) else None
+
+
+def contained(fn, viol, ctx, **inp):
+    """fn() ; an exception raised by the library's own code on this (legitimate) input is recorded as a violation and None is returned"""
+    try:
+        return fn()
+    except Exception as e:      # noqa: BLE001
+        where = raised_in_library(e)
+        if where is None:
+            raise
+        viol.append(dict(ctx, what="the implementation raised on a legitimate input", error=repr(e)[:300], raised_at=where, **inp))
+        return None
+
+
 def guarded_any(fn, *a):
     """(result, None) or (None, description of the exception)"""
     try:
